@@ -223,6 +223,16 @@ int main ()
         for (int j=0;j<4;j++) e3 = std::max (e3, fabsl ((long double) rc[i][j] - fc[i][j]) / (scale*scale)); } }
     O.puti (finite ? 1 : 0); O.put ((double) e1); O.put ((double) e2); O.put ((double) e3); };
 
+  // oracle: the reported cross-covariance of a (possibly decorated) mode at lags far beyond any correlation length, up to the
+  // largest value the unsigned lag can take: zero for every non-zero lag, the covariance at lag 0.  Output: max |entry| over
+  // the lags tried (relative to the intensity squared), max |xcov(0) - cov|
+  OP("o.c01.lags") { Stokes<double> S = A.stokes(); epsic::mode* m = make_mode (A, S, &g_bm); epsic::mode* base = m;
+    static const unsigned lags[] = { 1000u, 65535u, 65536u, 65537u, 1000000u, 16777217u, 2147483647u, 2147483648u, 2147483649u, 3000000000u, 4294967295u };
+    long double worst = 0, scale = std::max ((long double) S[0]*S[0], 1e-300L);
+    for (unsigned l : lags) { Matrix<4,4,double> x = base->get_crosscovariance (l); for (int i=0;i<4;i++) for (int j=0;j<4;j++) worst = std::max (worst, fabsl ((long double) x[i][j]) / scale); }
+    Matrix<4,4,double> x0 = base->get_crosscovariance (0), c = base->get_covariance(); long double e0 = 0; for (int i=0;i<4;i++) for (int j=0;j<4;j++) e0 = std::max (e0, fabsl ((long double) x0[i][j] - c[i][j]) / scale);
+    O.put ((double) worst); O.put ((double) e0); };
+
   // ------------------------------------------------------------ C06: sample means
   OP("sm.cov") { unsigned n = A.n(); stub_mode s; s.cv = A.d(); unsigned k = A.n(); for (unsigned i=0;i<k;i++) s.x.push_back (A.d());
     epsic::single smp (new epsic::mode); O.put (smp.sample::get_covariance (&s, n)); };
@@ -414,6 +424,23 @@ int main ()
     std::vector<double> x, y; int rx = draw (true, x), ry = draw (false, y); long bad = 0;
     if (rx != ry) bad = 1; else if (!rx) { for (size_t i=0;i<x.size();i++) if (memcmp (&x[i], &y[i], 8) != 0) bad++; }
     O.put ((double) bad); O.puti (rx); O.puti (ry); };
+  // oracle (history): calls on the coordinator that change nothing about the joint law (installing another BoxMuller object,
+  // which reads the same source; re-requesting an existing mode; re-setting the same modulation index; reading the statistics)
+  // in the middle of an interleaving in which one mode is ahead must not change what is delivered: compared with the same
+  // interleaving without those calls.  Output: number of differing delivered factors (bitwise)
+  OP("o.c08.neutral") { double rho = A.d(); double b0 = A.d(); double b1 = A.d(); std::string pat = A.next(); unsigned at = A.n(); unsigned what = A.n(); std::vector<float> dev; while (!A.done()) dev.push_back ((float) A.d());
+    static BoxMuller other (0);
+    auto draw = [&](bool neutral, std::vector<double>& out) { g_normal.clear(); for (float d : dev) g_normal.push_back (d);
+      epsic::bivariate_lognormal_modes* co = new epsic::bivariate_lognormal_modes (rho); co->set_normal (&g_bm); co->set_beta (0, b0); co->set_beta (1, b1);
+      epsic::mode* ma = new epsic::mode; epsic::mode* mb = new epsic::mode; epsic::modulated_mode* A_ = co->get_modulated_mode (0, ma); epsic::modulated_mode* B_ = co->get_modulated_mode (1, mb);
+      for (unsigned i=0;i<pat.size();i++) {
+        if (neutral && i == at) { if (what == 0) co->set_normal (&other); else if (what == 1) { co->get_modulated_mode (0, ma); co->get_modulated_mode (1, mb); }
+          else if (what == 2) { co->get_intensity_covariance(); A_->get_mod_variance(); B_->get_mod_mean(); co->get_correlation(); }
+          else { co->set_normal (&g_bm); } }
+        out.push_back (pat[i] == 'A' ? A_->modulation() : B_->modulation()); } };
+    std::vector<double> x, y; draw (true, x); draw (false, y); long bad = (x.size() != y.size());
+    for (size_t i=0;i<x.size() && i<y.size();i++) if (memcmp (&x[i], &y[i], 8) != 0) bad++;
+    O.put ((double) bad); };
   // oracle: pairing under an arbitrary interleaving, with a counting coordinator (draw k delivers (k, k + 1/2))
   OP("o.c08.pairing") { std::string pat = A.next();
     struct counting : public epsic::covariant_coordinator { unsigned long k = 0; counting () : covariant_coordinator (0.0) {}
